@@ -1,0 +1,64 @@
+//go:build verif
+
+// Contracts for contract-based deductive verification (checked by /verif/govc).
+// This file is comment-only and compiled only with the build tag "verif".
+
+package resmgr
+
+// The value a key resolves to for a subject. KeyValue itself (string splitting, path.Clean,
+// type switches over interface{}) is not verified: its result is an uninterpreted function of
+// (key, subject), which is all the operator semantics below depend on.
+//@ pure kvVal(key string, subject Evaluable) string
+//@ pure kvOk(key string, subject Evaluable) bool
+//@ assume-contract KeyValue
+//@   modifies nothing
+//@   ensures result0 == kvVal(key, subject) && result1 == kvOk(key, subject)
+
+//@ pure globMatch(p string, v string) bool = filepath.Match(p, v).0
+//@ pure anyEq(vals []string, n int, v string) bool = exists j int :: 0 <= j && j < n && (vals[j] == v || vals[j] == "*")
+//@ pure anyMatch(vals []string, n int, v string) bool = exists j int :: 0 <= j && j < n && globMatch(vals[j], v)
+
+// Documented operator semantics (docs/resource-policy/policy/balloons.md, types.go).
+//@ pure evalSpec(op Operator, vals []string, v string, ok bool) bool =
+//@    op == AlwaysTrue ? true :
+//@    op == Equals ? (ok && (v == vals[0] || vals[0] == "*")) :
+//@    op == NotEqual ? (!ok || v != vals[0]) :
+//@    op == Matches ? (ok && globMatch(vals[0], v)) :
+//@    op == MatchesNot ? !(ok && globMatch(vals[0], v)) :
+//@    op == In ? (ok && anyEq(vals, len(vals), v)) :
+//@    op == NotIn ? !(ok && anyEq(vals, len(vals), v)) :
+//@    op == MatchesAny ? (ok && anyMatch(vals, len(vals), v)) :
+//@    op == MatchesNone ? !(ok && anyMatch(vals, len(vals), v)) :
+//@    op == Exists ? ok :
+//@    op == NotExist ? !ok : false
+
+// What Validate accepts, as far as Evaluate relies on it.
+//@ pure validated(e *Expression) bool = e != nil &&
+//@    ((e.Op == Equals || e.Op == NotEqual || e.Op == Matches || e.Op == MatchesNot) ==> len(e.Values) == 1) &&
+//@    ((e.Op == Exists || e.Op == NotExist || e.Op == AlwaysTrue) ==> len(e.Values) == 0) &&
+//@    (e.Op == Equals || e.Op == NotEqual || e.Op == Matches || e.Op == MatchesNot || e.Op == Exists || e.Op == NotExist ||
+//@     e.Op == In || e.Op == NotIn || e.Op == MatchesAny || e.Op == MatchesNone || e.Op == AlwaysTrue)
+
+//@ assume-contract (*Expression).validateKey
+//@   modifies nothing
+
+//@ func (*Expression).Validate
+//@   ensures[C19] result == nil ==> validated(e)
+//@   ensures[C19] e == nil ==> result != nil
+
+// "an expression accepted by validation never fails at evaluation": safety obligations under validated(e)
+//@ func (*Expression).Evaluate safety=C19,C14
+//@   requires validated(e) && subject != nil
+//@   ensures[C19] result == evalSpec(e.Op, e.Values, kvVal(e.Key, subject), kvOk(e.Key, subject))
+//@ loop 0 in (*Expression).Evaluate at "range e.Values"
+//@   invariant -1 <= rangeindex && rangeindex < len(e.Values)
+//@   invariant result == anyEq(e.Values, rangeindex + 1, kvVal(e.Key, subject))
+//@ loop 1 in (*Expression).Evaluate at "range e.Values"
+//@   invariant -1 <= rangeindex && rangeindex < len(e.Values)
+//@   invariant !anyMatch(e.Values, rangeindex + 1, kvVal(e.Key, subject))
+
+// The property's negation dualities, as consequences of the specification the code is proved against.
+//@ lemma[C19] DualIn(vals []string, v string, ok bool): evalSpec(In, vals, v, ok) == !evalSpec(NotIn, vals, v, ok)
+//@ lemma[C19] DualMatches(vals []string, v string, ok bool): evalSpec(Matches, vals, v, ok) == !evalSpec(MatchesNot, vals, v, ok)
+//@ lemma[C19] DualMatchesAny(vals []string, v string, ok bool): evalSpec(MatchesAny, vals, v, ok) == !evalSpec(MatchesNone, vals, v, ok)
+//@ lemma[C19] DualExists(vals []string, v string, ok bool): evalSpec(Exists, vals, v, ok) == !evalSpec(NotExist, vals, v, ok)
